@@ -3,7 +3,7 @@
 SPECIFICATION Spec
 CONSTANTS
   Variant = "as_shipped"
-  Kinds = {"mft", "mftn", "ta", "tah", "notify"}
+  Kinds = {"mft", "mftn", "ta", "tah", "notify", "notify1"}
   Mode = "single"
   HostsR = {"h.test", "..", ""}
   HostsH = {"h.test", "..", ".", ""}
